@@ -1308,10 +1308,10 @@ Proof.
   apply digits_not_contain; [apply itoa_digits | unfold c_pipe; lia].
 Qed.
 
-Lemma store_key_canonical : forall is_ip : str -> bool, forall n q scope,
+Lemma store_key_canonical : forall n q scope,
     no_escaped_dot n = true -> no_pipe n = true -> store_key n q scope = spec_key n q.
 Proof.
-  intros _ n q scope H1 H2. unfold store_key. pose proof (cache_key_no_pipe n q H1 H2) as HP.
+  intros n q scope H1 H2. unfold store_key. pose proof (cache_key_no_pipe n q H1 H2) as HP.
   destruct scope as [|c sc].
   - rewrite app_nil_r. unfold base_key. rewrite break_at_none by auto. apply key_canonical. auto.
   - unfold base_key. rewrite break_at_app by auto. apply key_canonical. auto.
@@ -1324,7 +1324,7 @@ Lemma store_key_is_lookup_key : forall qname dom q scope,
     no_escaped_dot qname = true -> no_pipe qname = true -> no_escaped_dot dom = true ->
     store_key qname q scope = lookup_key dom q.
 Proof.
-  intros qname dom q scope HS H1 H2 H3. rewrite (store_key_canonical (fun _ => false)) by auto.
+  intros qname dom q scope HS H1 H2 H3. rewrite store_key_canonical by auto.
   unfold lookup_key. rewrite key_canonical by auto. unfold spec_key. unfold same_name in HS.
   apply str_eqb_eq in HS. rewrite HS. reflexivity.
 Qed.
